@@ -48,6 +48,19 @@ BROKEN = [
     ('ver:"3.0"\na\n"a\x00b"\n', 'raw NUL in string'),
     ('ver:"3.0"\na\n"a\tb"\n', 'raw tab in string'),
     ('ver:"3.0"\na\n`a\\"b`\n', 'illegal escape in URI'),
+    ('ver:"3.0"\na\n`\\u41`\n', 'truncated \\u escape in URI'),
+    ('ver:"3.0"\na\n`\\u 041`\n', '\\u escape with a blank in URI'),
+    ('ver:"3.0"\na\n`\\u0x41`\n', '\\u escape with 0x in URI'),
+    ('ver:"3.0"\na\n`\\u0_41`\n', '\\u escape with _ in URI'),
+    ('ver:"3.0"\na\n`\\u+041`\n', '\\u escape with a sign in URI'),
+    ('ver:"3.0"\na\n`x\\u-041y`\n', '\\u escape with a minus sign in URI'),
+    ('ver:"3.0"\na\n`\\uZZZZ`\n', 'non-hex \\u escape in URI'),
+    ('ver:"3.0"\na\n"\\u 041"\n', '\\u escape with a blank in string'),
+    ('ver:"3.0"\na\n"\\u0x41"\n', '\\u escape with 0x in string'),
+    ('ver:"3.0"\na\n"\\u0_41"\n', '\\u escape with _ in string'),
+    ('ver:"3.0"\na\n"\\u+041"\n', '\\u escape with a sign in string'),
+    ('ver:"2.0"\na\n`\\u 041`\n', '\\u escape with a blank in URI (2.0)'),
+    ('ver:"3.0" m:`\\u0x41`\na\n1\n', 'malformed \\u escape in a metadata URI'),
     ('ver:"3.0"\na\n"a\\"\n', 'dangling backslash-quote'),
     ('ver:"3.0"\na\n[1,2\n', 'unbalanced list'),
     ('ver:"3.0"\na\n1,2]\n', 'stray closing bracket'),
@@ -200,6 +213,17 @@ def run(ctx):
                 tk.append(s0[:pos] + t + s0[pos:])
     sc.extend(nested)
     sc.extend(tk if thorough else rng.sample(tk, 700) + [s0[:s0.index('"3.0"') + 5] + t + s0[s0.index('"3.0"') + 5:] for s0 in nested if '"3.0"' in s0 for t in tokens])
+    # scalars with an illegal escape are rejected, never read as something
+    broken_scalars = ['`\\u41`', '`\\u 041`', '`\\u0x41`', '`\\u0_41`', '`\\u+041`', '`a\\u-041`', '`\\uZZZZ`', '`\\q`', '"\\q"', '"\\u 041"', '"\\u0x41"',
+                      '"\\u0_41"', '"\\u+041"', '"\\u12"', '"\\uZZZZ"', '@r "\\u 041"', 'hex("\\u0x41")', '[`\\u 041`]', '{a:"\\u0_41"}']
+    for ver in ('3.0', '2.0'):
+        for text, got in zip(broken_scalars, zincsim.impl_scalar_many(broken_scalars, ver=ver)):
+            ctx.coverage['evaluations'] += 1
+            ctx.count('broken-scalar')
+            if got[0] == 'ok':
+                ctx.violation('impl-counterexample', 'the illegally escaped scalar %r (version %s) was accepted and read as %r' % (text, ver, repr(got[1])[:120]),
+                              {'scalar': text, 'version': ver})
+                return
     for ver, ver3 in (('3.0', True), ('2.0', False)):
         res = zincsim.impl_scalar_many(sc, ver=ver)
         mod = zincsim.model_zscalar(ctx, sc, ver3=ver3)
